@@ -235,18 +235,24 @@ theorem C20_logon_arms (s : Sess) (m : InMsg) (ns : Int) :
   have he : ∀ (x : Sess) (o : OutMsg), ∃ pre, (enqueueAndSend x o).log = pre ++ x.log := by
     intro x o; unfold enqueueAndSend; simp only []
     split <;> exact hq _
-  have hx : ∀ x : Sess, ∃ pre, (nxEval x m ns).log = pre ++ x.log := by
+  have hx : ∀ x : Sess, ∃ pre, (nxEval x m ns).1.log = pre ++ x.log := by
     intro x; unfold nxEval
     repeat' split
     all_goals first | exact he _ _ | exact ⟨[], rfl⟩
   unfold logonFinish
-  simp only []
   obtain ⟨pre, hp⟩ := hx (((s.setSentReset false).emit (.armPeer (1200 * s.hb))).emit .onLogon)
-  split
-  · exact ⟨pre ++ [.onLogon], by rw [hp]; simp [Sess.emit, Sess.setSentReset]⟩
-  · exact ⟨.incT :: (pre ++ [.onLogon]), by
-      show Obs.incT :: (nxEval _ m ns).log = _
-      rw [hp]; simp [Sess.emit, Sess.setSentReset]⟩
+  generalize nxEval _ m ns = r at hp
+  obtain ⟨x, o⟩ := r
+  simp only [] at hp
+  cases o with
+  | some r => exact ⟨pre ++ [.onLogon], by show x.log = _; rw [hp]; simp [Sess.emit, Sess.setSentReset]⟩
+  | none =>
+    simp only []
+    split
+    · exact ⟨pre ++ [.onLogon], by show x.log = _; rw [hp]; simp [Sess.emit, Sess.setSentReset]⟩
+    · exact ⟨.incT :: (pre ++ [.onLogon]), by
+        show Obs.incT :: x.log = _
+        rw [hp]; simp [Sess.emit, Sess.setSentReset]⟩
 
 /-! ### non-vacuity (evaluated by the interpreter at build time) -/
 
